@@ -11,6 +11,7 @@ import (
 	"net/http"
 	"os"
 	"strconv"
+	"strings"
 	"sync"
 	"sync/atomic"
 	"time"
@@ -40,7 +41,7 @@ type nbRun struct {
 	recs    []*cbRec
 	pending int64
 	allDone chan struct{} // buffered(1): a token whenever pending reaches zero
-	lastDo  atomic.Value // time.Time
+	lastDo  atomic.Value  // time.Time
 	ccs     []*nbhttp.ClientConn
 	byID    sync.Map // id -> *cbRec
 	tainted sync.Map // ClientConn name / "Client": its FIFO is known to be shifted
@@ -387,7 +388,7 @@ func (e *env) runNbClient() {
 	decidable := true
 	select {
 	case <-issued:
-	case <-time.After(60 * time.Second):
+	case <-time.After(10 * time.Second):
 		decidable = false
 		e.r.Inconclusive(fmt.Sprintf("case %d: a request issuer is stuck inside Do (nbhttp holds the connection mutex while it dials)", c.Index))
 	}
@@ -440,11 +441,30 @@ func (e *env) runNbClient() {
 	recs := append([]*cbRec(nil), n.recs...)
 	n.mu.Unlock()
 	never := 0
+	// a panic inside ClientConn.Do is recovered and logged by nbhttp; the handler
+	// it had already queued is then forgotten. That cause gets its own signature.
+	sigNever := "c10:client:callback-never"
+	e.logLines = capLog.Take()
+	for _, l := range h.PanicLines(e.logLines) {
+		if strings.Contains(l, "ClientConn Do failed") {
+			sigNever = "c10:client:callback-never:after-panic-recovered-in-do"
+			break
+		}
+	}
 	for _, rec := range recs {
 		if decidable && atomic.LoadInt32(&rec.calls) == 0 {
 			never++
 			if never <= 2 {
-				e.violate("c10:client:callback-never", fmt.Sprintf("%s against the %s server: the callback of request %s was never invoked: every issuer has returned, Client.Close / ClientConn.Close have returned, the Timeout (%v) has expired and the history is quiet (process idle, no progress for 3 s)\nevents:\n%s", rec.api, c.NbTarget, rec.p, timeout, e.log.Slice(rec.p.Conn, 14)))
+				extra := ""
+				if sigNever != "c10:client:callback-never" {
+					for _, l := range h.PanicLines(e.logLines) {
+						if strings.Contains(l, "ClientConn Do failed") {
+							extra = "\nnbhttp logged during this case: " + strings.SplitN(l, "\n", 2)[0]
+							break
+						}
+					}
+				}
+				e.violate(sigNever, fmt.Sprintf("%s against the %s server: the callback of request %s was never invoked: every issuer has returned, Client.Close / ClientConn.Close have returned, the Timeout (%v) has expired and the history is quiet (process idle, no progress for 3 s)%s\nevents:\n%s", rec.api, c.NbTarget, rec.p, timeout, extra, e.log.Slice(rec.p.Conn, 14)))
 			}
 		}
 	}
